@@ -9,6 +9,7 @@ import (
 
 	"pgregory.net/rapid"
 
+	"verifharness/gen"
 	"verifharness/knutio"
 	"verifharness/ref"
 	"verifharness/stats"
@@ -1003,6 +1004,11 @@ func c13bText(t *rapid.T, label string) string {
 	}
 	atoms = append(append([]string{}, atoms...), "\n")
 	parts := rapid.SliceOfN(rapid.SampledFrom(atoms), 1, 6).Draw(t, label)
+	if gen.Rare(t, label+"Long", 4) {
+		// several hundred bytes with multi-byte letters at every alignment
+		n := rapid.IntRange(12, 40).Draw(t, label+"LongN")
+		return strings.TrimSpace(strings.Join(parts, "") + " " + strings.Repeat(rapid.SampledFrom([]string{"Überweisung ", "Zürich-Örlikon ", "é", "Gebühr für März "}).Draw(t, label+"LongTok"), n))
+	}
 	return strings.Join(parts, "")
 }
 
